@@ -63,7 +63,20 @@ Inductive case :=
    [touched] = the API object was used; the outcome is compared when the Kubernetes part
    (reconcile_krm_resource, not modelled) was not entered *)
 | CRf (pre : option (list vtree)) (pre_raw : option raw) (locals : option raw) (loc : string)
-      (touched : bool) (o : oobs) (t : list site).
+      (touched : bool) (o : oobs) (t : list site)
+(* a real readonly ResourceFunction against the in-memory cluster that holds its object (so the
+   Kubernetes part returns the object after [ncalls] API calls): preconditions, locals,
+   postconditions (evaluated elements + what celpy did), return; observed result, sites *)
+| CRfc (pre : option (list vtree)) (pre_raw : option raw) (locals : option raw)
+       (post : option (list vtree)) (post_raw : option raw) (ret : option raw) (loc : string)
+       (ncalls : nat) (o : oobs) (t : list site).
+
+Definition raw_agrees (es : option (list vtree)) (r : option raw) : bool :=
+  match es, r with
+  | Some es, Some r => raw_eqb (cel_filter es) r
+  | None, Some _ => false
+  | _, None => true
+  end.
 
 Definition rf_ok (model : res (option (uoutcome vtree))) (seen : oobs) : bool :=
   match model, seen with
@@ -102,4 +115,14 @@ Definition check_case (c : case) : bool :=
       list_eqb site_eqb t' t &&
       Bool.eqb (match calls with [] => false | _ => true end) touched &&
       (if existsb (site_eqb SResource) t' then true else rf_ok r o)
+  | CRfc pre pre_raw locals post post_raw ret loc ncalls o t =>
+      let f := {| rf_pre := option_map cel_filter pre; rf_locals := locals;
+                  rf_post := option_map cel_filter post; rf_return := ret |} in
+      let krm := fun _ : option raw => (UVal VNull : uoutcome vtree, repeat tt ncalls) in
+      raw_agrees pre pre_raw && raw_agrees post post_raw &&
+      let '(r, t', calls) := reconcile_rf unit krm f loc in
+      list_eqb site_eqb t' t && rf_ok r o &&
+      (* when the Kubernetes part was not entered there must be no call at all *)
+      Nat.eqb (List.length calls) (if existsb (site_eqb SResource) t' then ncalls else 0) &&
+      (if existsb (site_eqb SResource) t' then true else Nat.eqb ncalls 0)
   end.
